@@ -61,7 +61,7 @@ theorem nodup_full (N : Nat) : ∀ (l : List Nat), l.Nodup → (∀ x ∈ l, x <
 theorem loadBlocks_ok (env : Env) (t : Nat) (st st' : St) (l : List Item)
     (h : loadBlocks env t st = .ok (st', l)) :
     t ∉ st.loaded ∧ t < env.length ∧ st'.loaded = t :: st.loaded ∧
-      ∃ T, env[t]? = some T ∧ l = T.layout ∧ st'.blocks = appendBlocks st.blocks T.blocks ∧
+      ∃ T, env[t]? = some T ∧ T.loadErr = none ∧ l = T.layout ∧ st'.blocks = appendBlocks st.blocks T.blocks ∧
         st'.depth = st.depth ∧ st'.frames = st.frames := by
   unfold loadBlocks at h
   by_cases hmem : t ∈ st.loaded
@@ -70,13 +70,17 @@ theorem loadBlocks_ok (env : Env) (t : Nat) (st st' : St) (l : List Item)
     cases hT : env[t]? with
     | none => simp [hT] at h
     | some T =>
-      simp only [hT, Except.ok.injEq, Prod.mk.injEq] at h
+      simp only [hT] at h
+      cases hL : T.loadErr with
+      | some kk => simp [hL] at h
+      | none =>
+      simp only [hL, Except.ok.injEq, Prod.mk.injEq] at h
       obtain ⟨rfl, rfl⟩ := h
       have hlt : t < env.length := by
         rcases Nat.lt_or_ge t env.length with h | h
         · exact h
         · rw [List.getElem?_eq_none h] at hT; cases hT
-      exact ⟨hmem, hlt, rfl, T, rfl, rfl, rfl, rfl, rfl⟩
+      exact ⟨hmem, hlt, rfl, T, rfl, hL, rfl, rfl, rfl, rfl⟩
 
 /-- the loaded set stays duplicate-free and inside the environment -/
 theorem loadBlocks_inv (env : Env) (t : Nat) (st st' : St) (l : List Item)
@@ -168,7 +172,7 @@ theorem extends_missing_error (rd : Rd) (rec : Rec) (t : Nat) (rest : List Item)
     block state is restored -/
 theorem performInclude_first (env : Env) (rec : Rec) (cur : Option Nat) (disc ign : Bool) (outer : Nat)
     (missing more : List Nat) (t : Nat) (T : Template)
-    (hmiss : ∀ m ∈ missing, env[m]? = none) (hT : env[t]? = some T) (tried : Bool) (st : St) :
+    (hmiss : ∀ m ∈ missing, env[m]? = none) (hT : env[t]? = some T) (hL : T.loadErr = none) (tried : Bool) (st : St) :
     performInclude env rec cur disc ign outer (missing ++ t :: more) tried st =
       if outer + INCLUDE_COST + st.frames.length > LIMIT then .error [.invalidOperation]
       else
@@ -180,13 +184,27 @@ theorem performInclude_first (env : Env) (rec : Rec) (cur : Option Nat) (disc ig
                     frames := st'.frames.take st.frames.length }) := by
   induction missing generalizing tried with
   | nil =>
-    simp only [List.nil_append, performInclude, hT]
+    simp only [List.nil_append, performInclude, hT, hL]
     split
     · rfl
     · cases rec cur disc false (outer + INCLUDE_COST) T.ae T.layout
         { st with blocks := prepare T.blocks, depth := fun _ => 0, loaded := [] } with
       | error e => rfl
       | ok r => rfl
+  | cons m rest ih =>
+    have hm : env[m]? = none := hmiss m (by simp)
+    simp only [List.cons_append, performInclude, hm]
+    exact ih (fun x hx => hmiss x (by simp [hx])) true
+
+/-- a name that exists but cannot be loaded (does not compile, loader error) is not "missing":
+    the lookup error is returned as it is, with or without `ignore missing`, whatever follows -/
+theorem performInclude_load_error (env : Env) (rec : Rec) (cur : Option Nat) (disc ign : Bool) (outer : Nat)
+    (missing more : List Nat) (t : Nat) (T : Template) (k : LoadErr)
+    (hmiss : ∀ m ∈ missing, env[m]? = none) (hT : env[t]? = some T) (hL : T.loadErr = some k)
+    (tried : Bool) (st : St) :
+    performInclude env rec cur disc ign outer (missing ++ t :: more) tried st = .error [loadErrKind t k] := by
+  induction missing generalizing tried with
+  | nil => simp only [List.nil_append, performInclude, hT, hL]
   | cons m rest ih =>
     have hm : env[m]? = none := hmiss m (by simp)
     simp only [List.cons_append, performInclude, hm]
@@ -269,7 +287,8 @@ theorem lookup_assigns_other (v : Nat) (items : List Item) (fr : Frame)
 
 /-- what `include [t]` into a fresh `with` frame leaves behind when `t` is a module template -/
 theorem include_module (env : Env) (ctx : Cfg) (f : Nat) (cur : Option Nat) (disc : Bool) (outer : Nat)
-    (t : Nat) (T : Template) (hT : env[t]? = some T) (hs : T.layout.all Item.isAssign = true)
+    (t : Nat) (T : Template) (hT : env[t]? = some T) (hL : T.loadErr = none)
+    (hs : T.layout.all Item.isAssign = true)
     (st : St) (hd : outer + INCLUDE_COST + (st.frames.length + 1) ≤ LIMIT) :
     ∃ o, performInclude env (evalImpl env ctx (f + 1)) cur disc false outer [t] false
         { st with frames := st.frames ++ [[]] } =
@@ -280,7 +299,7 @@ theorem include_module (env : Env) (ctx : Cfg) (f : Nat) (cur : Option Nat) (dis
     st.frames [] rfl
   refine ⟨o, ?_⟩
   have hd' : ¬ (outer + INCLUDE_COST + (st.frames.length + 1) > LIMIT) := by omega
-  simp only [performInclude, hT, evalImpl, ho, List.length_append, List.length_singleton, hd', if_false]
+  simp only [performInclude, hT, hL, evalImpl, ho, List.length_append, List.length_singleton, hd', if_false]
   congr 2
   have : (st.frames ++ [assigns T.layout []]).take (st.frames.length + 1) = st.frames ++ [assigns T.layout []] := by
     apply List.take_of_length_le; simp
@@ -299,23 +318,23 @@ theorem pushFails_false_of (outer : Nat) (fs : List Frame)
 
 theorem importAs_step (env : Env) (ctx : Cfg) (f : Nat) (cur : Option Nat) (d0 e0 : Bool) (outer : Nat)
     (ae : AE) (parent : Option (List Item)) (t v : Nat) (T : Template) (hT : env[t]? = some T)
-    (hs : T.layout.all Item.isAssign = true) (rest : List Item) (st : St)
+    (hL : T.loadErr = none) (hs : T.layout.all Item.isAssign = true) (rest : List Item) (st : St)
     (hd : outer + INCLUDE_COST + (st.frames.length + 1) ≤ LIMIT) :
     stepItems ⟨env, ctx, cur, d0, e0, outer, ae⟩ (evalImpl env ctx (f + 1)) parent (.importAs t v :: rest) st =
       stepItems ⟨env, ctx, cur, d0, e0, outer, ae⟩ (evalImpl env ctx (f + 1)) parent rest
         { st with frames := store st.frames v (.module (dedupKeys (assigns T.layout []))) } := by
-  obtain ⟨o, ho⟩ := include_module env ctx f cur false outer t T hT hs st hd
+  obtain ⟨o, ho⟩ := include_module env ctx f cur false outer t T hT hL hs st hd
   simp only [stepItems, pushFails_false_of outer st.frames hd, Bool.false_eq_true, if_false, ho,
     topFrame_snoc, take_append_one, andThen_nil]
 
 theorem fromImport_step (env : Env) (ctx : Cfg) (f : Nat) (cur : Option Nat) (d0 e0 : Bool) (outer : Nat)
     (ae : AE) (parent : Option (List Item)) (t name alias : Nat) (T : Template) (hT : env[t]? = some T)
-    (hs : T.layout.all Item.isAssign = true) (rest : List Item) (st : St)
+    (hL : T.loadErr = none) (hs : T.layout.all Item.isAssign = true) (rest : List Item) (st : St)
     (hd : outer + INCLUDE_COST + (st.frames.length + 1) ≤ LIMIT) :
     stepItems ⟨env, ctx, cur, d0, e0, outer, ae⟩ (evalImpl env ctx (f + 1)) parent (.fromImport t name alias :: rest) st =
       stepItems ⟨env, ctx, cur, d0, e0, outer, ae⟩ (evalImpl env ctx (f + 1)) parent rest
         { st with frames := store st.frames alias ((lookupVal name (assigns T.layout [])).getD .undef) } := by
-  obtain ⟨o, ho⟩ := include_module env ctx f cur true outer t T hT hs st hd
+  obtain ⟨o, ho⟩ := include_module env ctx f cur true outer t T hT hL hs st hd
   simp only [stepItems, pushFails_false_of outer st.frames hd, Bool.false_eq_true, if_false, ho,
     topFrame_snoc, take_append_one, andThen_nil]
 
@@ -468,6 +487,10 @@ theorem specInclude_fine {cbs : SpecCbs} {outer n : Nat} (h : CbFine cbs outer n
     cases env[t]? with
     | none => exact ih true
     | some T =>
+      simp only []
+      cases hL : T.loadErr with
+      | some kk => exact fine_error (by cases kk <;> simp [loadErrKind])
+      | none =>
       simp only []
       split
       · exact fine_error (by simp)
@@ -840,6 +863,10 @@ theorem term_succ (env : Env) (ctx : Cfg) (f : Nat) (ht : Term env ctx f) : Term
           | none => exact fine_error (by simp)
           | some T =>
             simp only []
+            cases hL : T.loadErr with
+            | some kk => exact fine_error (by cases kk <;> simp [loadErrKind])
+            | none =>
+            simp only []
             have hpost := specItems_fine env ctx (hcb fs1 hl1) (defs env (chain ++ [t])) none true true ae post
               (hsm fs1 hl1 _ none true true post) fs1 rfl
             cases hr2 : specItems env ctx (specAll env ctx f) (defs env (chain ++ [t])) none true true outer ae post fs1 with
@@ -964,7 +991,7 @@ theorem specItems_post (env : Env) (ctx : Cfg) (cbs : SpecCbs) (D : Nat → List
     template or a second `extends`; not exhaustion) as soon as the fuel allows `|env| + 1`
     template activations -/
 theorem cycle_detected_spec (env : Env) (ctx : Cfg)
-    (hall : ∀ T ∈ env, extendsAfterText T.layout = true) :
+    (hall : ∀ T ∈ env, extendsAfterText T.layout = true) (hload : ∀ T ∈ env, T.loadErr = none) :
     ∀ d f chain disc outer ae layout fs, chain ≠ [] → chain.tail.Nodup → (∀ x ∈ chain.tail, x < env.length) →
       env.length - chain.tail.length ≤ d → d + 1 ≤ f → extendsAfterText layout = true →
       (specAll env ctx f).chain chain disc outer ae layout fs = .error [.invalidOperation] ∨
@@ -1004,7 +1031,7 @@ theorem cycle_detected_spec (env : Env) (ctx : Cfg)
       cases hT : env[t]? with
       | none => simp
       | some T =>
-        simp only [specItems_post env ctx _ _ outer ae post hpost]
+        simp only [hload T (List.mem_of_getElem? hT), specItems_post env ctx _ _ outer ae post hpost]
         by_cases hx : hasExecExtends post = true
         · simp [hx]
         · have hx' : hasExecExtends post = false := by simpa using hx
@@ -1085,12 +1112,13 @@ theorem include_items_err (env : Env) (ctx : Cfg) (cbs : SpecCbs)
       ∃ e, cbs.chain [t] disc outer ae T.layout fs = .error e ∧ IncErr e)
     (D : Nat → List (List Item)) (cur : Option (Nat × Nat)) (disc ext : Bool) (outer : Nat) (ae : AE)
     (pre : List Item) (t : Nat) (ign : Bool) (more : List Item)
-    (hpre : pre.all Item.isText = true) (ht : t < env.length) (fs : List Frame) :
+    (hpre : pre.all Item.isText = true) (ht : t < env.length) (hload : ∀ T ∈ env, T.loadErr = none)
+    (fs : List Frame) :
     ∃ e, specItems env ctx cbs D cur disc ext outer ae (pre ++ .incl [t] ign :: more) fs = .error e ∧ IncErr e := by
   obtain ⟨o, ho⟩ := specItems_texts env ctx cbs D cur disc ext outer ae pre (.incl [t] ign :: more) hpre fs
   rw [ho]
   have hT : env[t]? = some env[t] := List.getElem?_eq_getElem ht
-  simp only [specItems, specInclude, hT]
+  simp only [specItems, specInclude, hT, hload _ (List.getElem_mem ht)]
   by_cases hd : outer + INCLUDE_COST + fs.length > LIMIT
   · exact ⟨[.invalidOperation], by simp [hd], 0, .invalidOperation, rfl, Or.inl rfl⟩
   · obtain ⟨e, he, j, k, hjk, hk⟩ := hcb t ht _ hT disc (outer + INCLUDE_COST) env[t].ae fs
@@ -1100,7 +1128,7 @@ theorem include_items_err (env : Env) (ctx : Cfg) (cbs : SpecCbs)
 /-- every template includes some existing template before anything else can go wrong: rendering
     is an error for every fuel, of the shape `BadInclude … BadInclude` around the limit error -/
 theorem include_cycle_spec (env : Env) (ctx : Cfg)
-    (hall : ∀ T ∈ env, includesAfterText env T.layout = true) :
+    (hall : ∀ T ∈ env, includesAfterText env T.layout = true) (hload : ∀ T ∈ env, T.loadErr = none) :
     ∀ f t, t < env.length → ∀ T, env[t]? = some T → ∀ disc outer ae fs,
       ∃ e, (specAll env ctx f).chain [t] disc outer ae T.layout fs = .error e ∧ IncErr e := by
   intro f
@@ -1115,9 +1143,9 @@ theorem include_cycle_spec (env : Env) (ctx : Cfg)
     rw [hl]
     rcases split_after_texts pre (.incl [t'] ign) rest hpre rfl with hs | ⟨rest', tx, post, hs⟩
     · rw [hs]
-      exact include_items_err env ctx _ ih _ none disc false outer ae pre t' ign rest hpre ht' fs
+      exact include_items_err env ctx _ ih _ none disc false outer ae pre t' ign rest hpre ht' hload fs
     · rw [hs]
-      obtain ⟨e, he, hie⟩ := include_items_err env ctx _ ih (defs env [t]) none disc false outer ae pre t' ign rest' hpre ht' fs
+      obtain ⟨e, he, hie⟩ := include_items_err env ctx _ ih (defs env [t]) none disc false outer ae pre t' ign rest' hpre ht' hload fs
       exact ⟨e, by simp only [he], hie⟩
 
 /-! ### import of a template that extends another one -/
@@ -1164,7 +1192,8 @@ theorem splitExtends_assign_some (pre post : List Item) (p : Nat) (h : pre.all I
     assignments in front of *and behind* the `extends` tag, then the parent's -/
 theorem spec_include_extending (env : Env) (ctx : Cfg) (f : Nat) (disc : Bool) (outer : Nat)
     (t p : Nat) (T P : Template) (pre post : List Item)
-    (hT : env[t]? = some T) (hP : env[p]? = some P) (hl : T.layout = pre ++ .extends true p :: post)
+    (hT : env[t]? = some T) (hP : env[p]? = some P) (hLT : T.loadErr = none) (hLP : P.loadErr = none)
+    (hl : T.layout = pre ++ .extends true p :: post)
     (hpre : pre.all Item.isAssign = true) (hpost : post.all Item.isAssign = true)
     (hpl : P.layout.all Item.isAssign = true) (fs : List Frame)
     (hd : outer + INCLUDE_COST + (fs.length + 1) ≤ LIMIT) :
@@ -1178,7 +1207,7 @@ theorem spec_include_extending (env : Env) (ctx : Cfg) (f : Nat) (disc : Bool) (
   obtain ⟨o3, h3⟩ := spec_simple_steps env ctx (specAll env ctx f) (defs env ([t] ++ [p])) none disc false
     (outer + INCLUDE_COST) T.ae P.layout hpl fs (assigns post (assigns pre []))
   refine ⟨o1 ++ o2 ++ o3, ?_⟩
-  simp only [specInclude, hT, hd', if_false]
+  simp only [specInclude, hT, hLT, hd', if_false]
   have hchain : (specAll env ctx (f + 2)).chain [t] disc (outer + INCLUDE_COST) T.ae T.layout (fs ++ [[]]) =
       .ok (o1 ++ o2 ++ o3, fs ++ [assigns P.layout (assigns post (assigns pre []))]) := by
     have e1 : (specAll env ctx (f + 2)).chain [t] disc (outer + INCLUDE_COST) T.ae T.layout (fs ++ [[]]) =
@@ -1189,7 +1218,7 @@ theorem spec_include_extending (env : Env) (ctx : Cfg) (f : Nat) (disc : Bool) (
           (fs ++ [assigns post (assigns pre [])]) := rfl
     rw [e1]
     simp only [specChain, hl, splitExtends_assign_some pre post p hpre, h1, List.tail_cons,
-      List.not_mem_nil, if_false, hP, h2, e2, splitExtends_assign_none P.layout hpl, h3]
+      List.not_mem_nil, if_false, hP, hLP, h2, e2, splitExtends_assign_none P.layout hpl, h3]
   rw [hchain]
   simp only [List.length_append, List.length_singleton]
   congr 2
@@ -1198,7 +1227,8 @@ theorem spec_include_extending (env : Env) (ctx : Cfg) (f : Nat) (disc : Bool) (
 theorem importAs_extending_step (env : Env) (ctx : Cfg) (henv : EnvOK env) (f : Nat)
     (cur : Option Nat) (d0 e0 : Bool) (outer : Nat) (ae : AE) (parent : Option (List Item))
     (t p v : Nat) (T P : Template) (pre post : List Item)
-    (hT : env[t]? = some T) (hP : env[p]? = some P) (hl : T.layout = pre ++ .extends true p :: post)
+    (hT : env[t]? = some T) (hP : env[p]? = some P) (hLT : T.loadErr = none) (hLP : P.loadErr = none)
+    (hl : T.layout = pre ++ .extends true p :: post)
     (hpre : pre.all Item.isAssign = true) (hpost : post.all Item.isAssign = true)
     (hpl : P.layout.all Item.isAssign = true) (rest : List Item) (st : St)
     (hd : outer + INCLUDE_COST + (st.frames.length + 1) ≤ LIMIT) :
@@ -1206,7 +1236,7 @@ theorem importAs_extending_step (env : Env) (ctx : Cfg) (henv : EnvOK env) (f : 
       stepItems ⟨env, ctx, cur, d0, e0, outer, ae⟩ (evalImpl env ctx (f + 2)) parent rest
         { st with frames := (store st.frames v
             (Val.module (dedupKeys (assigns P.layout (assigns post (assigns pre [])))))) } := by
-  obtain ⟨o, ho⟩ := spec_include_extending env ctx f false outer t p T P pre post hT hP hl hpre hpost hpl
+  obtain ⟨o, ho⟩ := spec_include_extending env ctx f false outer t p T P pre post hT hP hLT hLP hl hpre hpost hpl
     st.frames hd
   simp only [stepItems, pushFails_false_of outer st.frames hd, Bool.false_eq_true, if_false]
   rw [include_sim (hyp_all env ctx henv (f + 2)) henv cur false false outer [t] false
